@@ -65,7 +65,9 @@ def handle (line : String) : String :=
       | some cls => s!"specfail {cls} mtu={m} len={d.length} via=manager"
       | none =>
         let delivOk := deliv != "none" && parseHex deliv == some d
-        if res == "ok" && !delivOk then
+        if res == "ok-before-end-acked" then
+          s!"specfail send-ok-before-end-acknowledged mtu={m} len={d.length}"
+        else if res == "ok" && !delivOk then
           s!"specfail send-ok-but-not-delivered mtu={m} len={d.length} delivered={deliv}"
         else if deliv != "none" && !delivOk then
           s!"specfail delivered-differs mtu={m} len={d.length}"
